@@ -192,17 +192,9 @@ func runC19_4(c *Ctx) {
 		ok := len(adds) == 1
 		if ok {
 			ok = false
-			for _, b := range fn.Blocks {
-				ifi, isIf := b.Instrs[len(b.Instrs)-1].(*ssa.If)
-				if !isIf {
-					continue
-				}
-				bo, isB := ifi.Cond.(*ssa.BinOp)
-				if !isB || bo.Op != token.EQL {
-					continue
-				}
-				k, okc := ConstIntOf(bo.Y)
-				ln, isL := bo.X.(*ssa.Call)
+			for _, ee := range EqEdges(fn) {
+				k, okc := ConstIntOf(ee.Y)
+				ln, isL := ee.X.(*ssa.Call)
 				if !okc || k != 0 || !isL {
 					continue
 				}
@@ -213,7 +205,7 @@ func runC19_4(c *Ctx) {
 				if !isPk || CalleeObj(pk) == nil || CalleeObj(pk).Name() != "PeekMeta" {
 					continue
 				}
-				if BlockDominatesInstr(b.Succs[0], adds[0]) {
+				if BlockDominatesInstr(ee.Eq, adds[0]) {
 					ok = true
 				}
 			}
